@@ -2,6 +2,7 @@
 from __future__ import annotations
 
 import os
+import random
 
 import numpy as np
 
@@ -60,9 +61,17 @@ def ig_records(case, ctx):
         agg = aggregate_records(count=True, sort=False)
 
         def frames():
-            for ch in _chunks(recs, case["chunk"]):
-                yield pd.DataFrame({"chrom1": [cname(r[0]) for r in ch], "pos1": np.array([r[1] for r in ch], dtype=np.int64),
-                                    "chrom2": [cname(r[2]) for r in ch], "pos2": np.array([r[3] for r in ch], dtype=np.int64)})
+            pdt = case.get("pos_dtype", "int64")
+            for k, ch in enumerate(_chunks(recs, case["chunk"])):
+                f = pd.DataFrame({"chrom1": [cname(r[0]) for r in ch], "pos1": np.array([r[1] for r in ch], dtype=pdt),
+                                  "chrom2": [cname(r[2]) for r in ch], "pos2": np.array([r[3] for r in ch], dtype=pdt)})
+                if case.get("labels") == "offset":          # row labels as a text reader leaves them on the k-th chunk of a file
+                    f.index = f.index + k * case["chunk"] + 5
+                elif case.get("labels") == "perm":
+                    lab = list(range(len(f)))
+                    random.Random(7 * len(f) + k).shuffle(lab)
+                    f.index = lab
+                yield f
         try:
             cooler.create_cooler(out, bins, (agg(san(f)) for f in frames()), ordered=False, symmetric_upper=symm,
                                  boundscheck=False, triucheck=False, dupcheck=False, temp_dir=d,
